@@ -534,7 +534,7 @@ class Engine:
             return g
         if n.id in self.model.global_calls:
             return FuncRef(n.id)
-        if n.id in ("min", "max", "divmod", "len", "range", "int", "bool", "abs", "isinstance", "hasattr", "getattr", "bytes", "bytearray", "memoryview"):
+        if n.id in ("min", "max", "divmod", "len", "range", "int", "bool", "abs", "isinstance", "hasattr", "getattr", "bytes", "bytearray", "memoryview", "str"):
             return FuncRef(n.id)
         if getattr(self.model, "gate_mode", False):
             return OpaqueV(f"name:{n.id}")
@@ -1004,6 +1004,11 @@ class Engine:
         args = [self.ev(a, st) for a in n.args]
         kwargs = {(k.arg if k.arg is not None else "__starstar__"): self.ev(k.value, st) for k in n.keywords}  # f(**d) reaches the callee contract as __starstar__=d
         if isinstance(f, FuncRef):
+            if f.name == "str" and args and isinstance(args[0], BytesV) and 2 <= len(args) + len(kwargs) <= 3 and set(kwargs) <= {"encoding", "errors"}:
+                # str(b, codec[, errors]) is b.decode(codec[, errors])
+                cod = args[1] if len(args) > 1 else kwargs.get("encoding")
+                err = args[2] if len(args) > 2 else kwargs.get("errors")
+                return self._decode(args[0], [cod] if cod is not None else [], st, n, errors=err)
             r = self.call_builtin(f.name, args, st, n) if not kwargs else None
             if r is not None:
                 return r
@@ -1044,15 +1049,9 @@ class Engine:
                 return BytesV(zmax(recv.n, w), lambda i, recv=recv, fill=fill: z3.If(i < recv.n, recv.at(i), fill), tuple(recv.bounds) + (recv.n,))
             if isinstance(recv, StrV) and f.name == "encode" and not args and not kwargs:
                 return const_bytes(recv.s.encode())
-            if isinstance(recv, BytesV) and f.name == "decode":
-                if self.allow_exc != "*" and self.allows("UnicodeDecodeError"):
-                    dec_ok = fresh("decodable", B)
-                    st.ghost["oks"] = st.ghost.get("oks", ()) + (dec_ok,)  # ghost: the "nothing raised" conditions of this path
-                    self.may_raise("UnicodeDecodeError", st, dec_ok, n)
-                o = OpaqueV("str")
-                o.memo[("decoded_from",)] = recv  # ghost: which bytes this text was decoded from
-                o.memo[("codec",)] = args[0].s if args and isinstance(args[0], StrV) else ("utf-8" if not args else "?")
-                return o
+            if isinstance(recv, BytesV) and f.name == "decode" and set(kwargs) <= {"encoding", "errors"}:
+                cod = args[0] if args else kwargs.get("encoding")
+                return self._decode(recv, [cod] if cod is not None else [], st, n, errors=args[1] if len(args) > 1 else kwargs.get("errors"))
             if isinstance(recv, ListV) and f.name == "append":
                 tgt = n.func.value
                 if not isinstance(tgt, ast.Name):
@@ -1094,6 +1093,21 @@ class Engine:
         if getattr(self.model, "gate_mode", False):
             return self.model.unknown_call(self, st, f, args, kwargs, n)
         raise Unsupported(f"call {ast.unparse(n)[:60]}@{n.lineno}")
+
+    def _decode(self, recv, args, st, n, errors=None):
+        """bytes -> text: an uninterpreted string tagged with the bytes it was decoded from and the codec (error handler appended when
+        one is given: 'utf-8/ignore' is not the codec 'utf-8')"""
+        if self.allow_exc != "*" and self.allows("UnicodeDecodeError"):
+            dec_ok = fresh("decodable", B)
+            st.ghost["oks"] = st.ghost.get("oks", ()) + (dec_ok,)  # ghost: the "nothing raised" conditions of this path
+            self.may_raise("UnicodeDecodeError", st, dec_ok, n)
+        o = OpaqueV("str")
+        o.memo[("decoded_from",)] = recv  # ghost: which bytes this text was decoded from
+        cod = args[0].s if args and isinstance(args[0], StrV) else ("utf-8" if not args else "?")
+        if errors is not None:
+            cod += "/" + (errors.s if isinstance(errors, StrV) else "?")
+        o.memo[("codec",)] = cod
+        return o
 
     def call_builtin(self, name, args, st, n):
         if name in ("min", "max"):
@@ -1716,6 +1730,9 @@ def find_function(repo, relpath, qualname):
 
     src = open(os.path.join(repo, relpath)).read()
     tree = ast.parse(src)
+    from . import alpha as _alpha
+
+    renamed_fns = _alpha.restore_module(tree, relpath)  # renamed helpers back to the names the contracts use (pyvc/alpha.py)
     parts = qualname.split(".")
     body = tree.body
     node = None
@@ -1728,7 +1745,13 @@ def find_function(repo, relpath, qualname):
         if node is None:
             raise Unsupported(f"{relpath}:{qualname} not found")
         body = node.body
-    return node, ast.get_source_segment(src, node)
+    seg = ast.get_source_segment(src, node) if not renamed_fns else ast.unparse(node)
+    if isinstance(node, (ast.FunctionDef, ast.AsyncFunctionDef)):
+        from . import alpha
+
+        if alpha.restore(node, relpath, qualname):  # locals renamed back to the names the contracts use (alpha-conversion)
+            seg = ast.unparse(node)
+    return node, seg
 
 
 def stmt_ordinal(fn_node, pred):
